@@ -14,6 +14,8 @@ pub use pearl::verif::BgState;
 
 /// Key lengths for which the storage facade is instantiated
 pub const KEY_LENS: &[usize] = &[1, 4, 8, 33, 100, 400];
+/// Additional key lengths instantiated for the tools check (read_index supports 4/8/16/32/64/128 only)
+pub const EXTRA_KEY_LENS: &[usize] = &[32, 128];
 
 /// Plain metadata map used by the model (a `Meta` has no iterator, so the harness keeps its own form)
 pub type MetaMap = BTreeMap<String, Vec<u8>>;
@@ -367,7 +369,9 @@ pub async fn open(cfg: &Cfg, dir: &Path, lazy: bool) -> Result<Box<dyn Sut>> {
         1 => open_n::<1>(cfg, dir, lazy).await,
         4 => open_n::<4>(cfg, dir, lazy).await,
         8 => open_n::<8>(cfg, dir, lazy).await,
+        32 => open_n::<32>(cfg, dir, lazy).await,
         33 => open_n::<33>(cfg, dir, lazy).await,
+        128 => open_n::<128>(cfg, dir, lazy).await,
         100 => open_n::<100>(cfg, dir, lazy).await,
         400 => open_n::<400>(cfg, dir, lazy).await,
         n => Err(anyhow!("unsupported key length {}", n)),
